@@ -64,6 +64,9 @@ def make_cons(spec):
         return wrap(lambda x: [round(v / q) * q for v in x])
     if k == "tie":
         return wrap(lambda x: [x[0]] * len(x))
+    if k == "affine":    # x[j] = a*x[i] + b, i != j: an affine tie (idempotent: x[i] is left alone)
+        i, j, a, b = spec["i"], spec["j"], spec["a"], spec["b"]
+        return wrap(lambda x: [a * x[i % len(x)] + b if q == j % len(x) else v for q, v in enumerate(x)] if len(x) > 1 else x)
     if k == "shift":     # NOT idempotent (negative tests only)
         d = spec["d"]
         return wrap(lambda x: [v + d for v in x])
